@@ -241,6 +241,10 @@ class Interp:
         elif op == 'build_sindex':
             a = mdl['active']
             df2 = lib(B, lambda: df.copy().build_sindex(page_size=s.get('page_size', 2)))
+            # which column got the index (observed through the arrays' index slot, when the implementation has one)
+            built = {g: getattr(df2[g].array, '_sindex', None) is not None for g in GEOMS if g in mdl['cols'] and hasattr(df2[g].array, '_sindex')}
+            if built and n and (not built.get(a, True) or any(v for g, v in built.items() if g != a)):
+                raise Failure(B + ['index-built-on-wrong-column'], f'index present on {built}, active column is {a}')
             tb = lib(B + ['total_bounds'], lambda: tuple(df2.geometry.sindex.total_bounds))
             exp = model.ref_total_bounds(KIND[a], [self.el(a, rid) for rid in mdl['ids']])
             if not model.same_row(tb, exp):
